@@ -1,0 +1,224 @@
+//! Public entries to crate-private items, used only by the solver-based checks in `/verif`
+//! (`--cfg gmsol_verif`). Thin wrappers only; nothing here is compiled without the guard.
+
+use anchor_lang::prelude::*;
+use gmsol_utils::market::{MarketConfigFlag, MarketConfigKey};
+
+use crate::states::{
+    gt::GtState,
+    market::Market,
+    oracle::price_map::SmallPrices,
+    order::Order,
+    permissions::MarketConfigPermissions,
+    user::{Referral, ReferralCodeBytes, ReferralCodeV2, UserHeader},
+    Factor, Glv, Oracle, Store,
+};
+
+/// See `Market::get_config_by_key_mut`.
+pub fn market_config_mut(market: &mut Market, key: MarketConfigKey) -> Result<&mut Factor> {
+    market.get_config_by_key_mut(key)
+}
+
+/// See `Market::set_config_flag_by_key`.
+pub fn market_set_config_flag(market: &mut Market, key: MarketConfigFlag, value: bool) -> bool {
+    market.set_config_flag_by_key(key, value)
+}
+
+/// See `Market::set_closed`.
+pub fn market_set_closed(market: &mut Market, closed: bool) -> Result<bool> {
+    market.set_closed(closed)
+}
+
+/// The store's market-config permissions.
+pub fn permissions(store: &Store) -> &MarketConfigPermissions {
+    &store.market_config_permissions
+}
+
+/// The store's market-config permissions (mutable).
+pub fn permissions_mut(store: &mut Store) -> &mut MarketConfigPermissions {
+    &mut store.market_config_permissions
+}
+
+/// See `MarketConfigPermissions::is_flag_updatable`.
+pub fn is_flag_updatable(p: &MarketConfigPermissions, flag: MarketConfigFlag) -> bool {
+    p.is_flag_updatable(flag)
+}
+
+/// See `MarketConfigPermissions::set_flag_updatable`.
+pub fn set_flag_updatable(
+    p: &mut MarketConfigPermissions,
+    flag: MarketConfigFlag,
+    updatable: bool,
+) -> Result<()> {
+    p.set_flag_updatable(flag, updatable)
+}
+
+/// See `MarketConfigPermissions::is_factor_updatable`.
+pub fn is_factor_updatable(p: &MarketConfigPermissions, key: MarketConfigKey) -> Result<bool> {
+    p.is_factor_updatable(key)
+}
+
+/// See `MarketConfigPermissions::set_factor_updatable`.
+pub fn set_factor_updatable(
+    p: &mut MarketConfigPermissions,
+    key: MarketConfigKey,
+    updatable: bool,
+) -> Result<()> {
+    p.set_factor_updatable(key, updatable)
+}
+
+/// See `Store::gt_mut`.
+pub fn gt_mut(store: &mut Store) -> &mut GtState {
+    store.gt_mut()
+}
+
+/// See `Store::update_last_restarted_slot`.
+pub fn update_last_restarted_slot(store: &mut Store, update: bool) -> Result<u64> {
+    store.update_last_restarted_slot(update)
+}
+
+/// See `GtState::mint_to`.
+pub fn gt_mint_to(gt: &mut GtState, user: &mut UserHeader, amount: u64) -> Result<()> {
+    gt.mint_to(user, amount)
+}
+
+/// See `GtState::unchecked_burn_from`.
+pub fn gt_burn_from(gt: &mut GtState, user: &mut UserHeader, amount: u64) -> Result<()> {
+    gt.unchecked_burn_from(user, amount)
+}
+
+/// See `GtState::get_mint_amount`.
+pub fn gt_get_mint_amount(gt: &GtState, size_in_value: u128) -> Result<(u64, u128, u128)> {
+    gt.get_mint_amount(size_in_value)
+}
+
+/// See `GtState::set_order_fee_discount_factors`.
+pub fn gt_set_order_fee_discount_factors(gt: &mut GtState, factors: &[u128]) -> Result<()> {
+    gt.set_order_fee_discount_factors(factors)
+}
+
+/// See `GtState::order_fee_discount_factor`.
+pub fn gt_order_fee_discount_factor(gt: &GtState, rank: u8) -> Result<u128> {
+    gt.order_fee_discount_factor(rank)
+}
+
+/// See `GtState::ranks`.
+pub fn gt_ranks(gt: &GtState) -> &[u64] {
+    gt.ranks()
+}
+
+/// The GT amount of a user.
+pub fn user_gt_amount(user: &UserHeader) -> u64 {
+    user.gt.amount
+}
+
+/// See `Referral::set_referrer` (on `user.referral`).
+pub fn set_referrer(user: &mut UserHeader, referrer_user: &mut UserHeader) -> Result<()> {
+    user.referral.set_referrer(referrer_user)
+}
+
+/// See `Referral::set_code` (on `user.referral`).
+pub fn set_code(user: &mut UserHeader, code: &Pubkey) -> Result<()> {
+    user.referral.set_code(code)
+}
+
+/// The referral state of a user.
+pub fn referral(user: &UserHeader) -> &Referral {
+    &user.referral
+}
+
+/// The owner of a user account.
+pub fn user_owner(user: &UserHeader) -> Pubkey {
+    user.owner
+}
+
+/// See `UserHeader::unchecked_transfer_code`.
+pub fn transfer_code(
+    user: &UserHeader,
+    code: &mut ReferralCodeV2,
+    receiver_user: &UserHeader,
+) -> Result<()> {
+    user.unchecked_transfer_code(code, receiver_user)
+}
+
+/// See `UserHeader::unchecked_complete_code_transfer`.
+pub fn complete_code_transfer(
+    user: &mut UserHeader,
+    code: &mut ReferralCodeV2,
+    receiver_user: &mut UserHeader,
+) -> Result<()> {
+    user.unchecked_complete_code_transfer(code, receiver_user)
+}
+
+/// See `ReferralCodeV2::init`.
+pub fn referral_code_init(
+    code: &mut ReferralCodeV2,
+    bump: u8,
+    bytes: ReferralCodeBytes,
+    store: &Pubkey,
+    owner: &Pubkey,
+) {
+    code.init(bump, bytes, store, owner)
+}
+
+/// See `Order::record_builder_fee`.
+pub fn record_builder_fee(order: &mut Order, amount: u64) -> Result<()> {
+    order.record_builder_fee(amount)
+}
+
+/// See `SmallPrices::from_price`.
+pub fn small_prices_from_price(
+    price: &gmsol_utils::Price,
+    is_synthetic: bool,
+    is_open: bool,
+) -> Result<SmallPrices> {
+    SmallPrices::from_price(price, is_synthetic, is_open)
+}
+
+/// See `Oracle::clear_all_prices`.
+pub fn oracle_clear_all_prices(oracle: &mut Oracle) {
+    oracle.clear_all_prices()
+}
+
+/// See `Glv::insert_market`.
+pub fn glv_insert_market(glv: &mut Glv, store: &Pubkey, market: &Market) -> Result<()> {
+    glv.insert_market(store, market)
+}
+
+/// See `Glv::validate_market_token_balance`.
+pub fn glv_validate_market_token_balance(
+    glv: &Glv,
+    market_token: &Pubkey,
+    new_balance: u64,
+    market_pool_value: &i128,
+    market_token_supply: &u128,
+) -> Result<()> {
+    glv.validate_market_token_balance(
+        market_token,
+        new_balance,
+        market_pool_value,
+        market_token_supply,
+    )
+}
+
+/// See `Glv::update_market_token_balance`.
+pub fn glv_update_market_token_balance(
+    glv: &mut Glv,
+    market_token: &Pubkey,
+    new_balance: u64,
+) -> Result<()> {
+    glv.update_market_token_balance(market_token, new_balance)
+}
+
+/// See `RevertibleMarket::new` (virtual inventories disabled).
+pub fn revertible_market<'a, 'info>(
+    market: &'a AccountLoader<'info, Market>,
+    event_authority: &'a AccountInfo<'info>,
+    bump: u8,
+) -> Result<crate::states::market::revertible::RevertibleMarket<'a, 'info>> {
+    crate::states::market::revertible::RevertibleMarket::new(
+        market,
+        None,
+        crate::events::EventEmitter::new(event_authority, bump),
+    )
+}
